@@ -33,7 +33,19 @@ THEOREMS = [
     "Mpc.C10_history",
     "Mpc.C10_history_offline_online",
     "Mpc.C10_history_concrete",
+    # the boundary of "every circuit": width of the level counter (Model/LevelsMod.lean)
+    "Mpc.C10_levels_topological",
+    "Mpc.C10_topo_check_sound",
+    "Mpc.C10_levels_counter_exact",
+    "Mpc.C10_levels_u32",
+    "Mpc.C10_bounded_levels_not_topological",
+    "Mpc.C10_levels_mod_not_topological",
+    "Mpc.C10_levels_mod_wrong_output",
+    "Mpc.C10_driver_compute",
 ]
+
+# internal dimensions of the implementation that bound "every circuit" (harness/cmd/c10/ext.go)
+EXT_CLASSES = ["deep", "wide-and", "wide-rest", "many-out", "wide-in"]
 
 # relation of the circuit of a call to the circuit of the previous call on the same Network (harness/cmd/c10/hist.go)
 HIST_RELATIONS = ["same-object", "copy", "rewire", "same-depth", "deeper", "shallower", "wider-in", "narrower-in",
@@ -107,6 +119,13 @@ def facts(ctx):
                [norm(m[0] + ": " + m[1]) for m in
                 re.findall(r"case circuit\.(XNOR|INV):(.*?)(?=case circuit|default:)", nsrc, re.S)],
                ["XNOR: bit = a ^ b if self.id == 0 { bit ^= 1 }", "INV: if self.id == 0 { bit = a ^ 1 } else { bit = a }"])
+    csrc = vlib.strip_go_comments(vlib.repo_file("circuit/circuit.go"))
+    al = body("circuit/circuit.go", r"\(c \*Circuit\) AssignLevels\(")
+    ctx.advise("width of the level counter: `type Level uint32`, AssignLevels' per-wire scratch table and maximum are of "
+               "type Level (the no-overflow side condition of C10_levels_u32 is AND depth < 2^32; decided at run time by the "
+               "ext correspondence up to AND depth 262145: real gate levels = Nat levels)",
+               [re.findall(r"type Level (\w+)", csrc), re.findall(r"levels := make\(\[\](\w+),", al),
+                re.findall(r"var max (\w+)", al)], [["uint32"], ["Level"], ["Level"]])
     ctx.advise("apps/garbled selects the GMW target for -gmw", bool(re.search(
         r"params\.Target = utils\.TargetGMW", vlib.repo_file("apps/garbled/main.go"))), True)
 
@@ -132,7 +151,7 @@ def replay_request():
         f = sys.argv[sys.argv.index("--replay") + 1]
         f = f if os.path.isabs(f) else os.path.join(vlib.VERIF, f)
         fl = (json.load(open(f)).get("failure") or {})
-        m = re.match(r"hx-c10 (sess|hist) -seed (\d+) -n (\d+) -only (\d+) -tier \w+$", fl.get("rerun", ""))
+        m = re.match(r"hx-c10 (sess|hist|ext) -seed (\d+) -n (\d+) -only (\d+) -tier \w+$", fl.get("rerun", ""))
         return (m.group(1), int(m.group(2)), int(m.group(3)), int(m.group(4))) if m else None
     except Exception:
         return None
@@ -141,6 +160,8 @@ def replay_request():
 WHAT = {"tb": "tripleBatch c shares of every party (shadow IKNP instances)",
         "pool": "Triples.Append / TriplePool.Get sequences, bit-vector leaf functions",
         "sess": "complete wire-share vectors, consumed triple words and outputs of every party",
+        "ext": "extreme circuits (AND depth / level width / outputs / input width across 2^8 and 2^16): gate levels of the real "
+               "AssignLevels, level oracle, every party's outputs; share-level run ops where the pool snapshot covers the run",
         "hist": "histories of 2..5 Run calls on one Network: complete wire stores (stale bits included) and outputs of "
                 "every party after every call, consumed triple words over the whole history"}
 
@@ -174,7 +195,8 @@ def run(ctx):
                 return ctx.finish("Replay: %s case %d of seed %d was re-generated from its seed and re-run on real gmw "
                                   "networks; the oracle fails again." % (mode, case, seed))
             print("the replayed case no longer fails; running the full check")
-        plan = [("tb", 24 if quick else 200, ctx.seed), ("pool", 1000 if quick else 8000, ctx.seed),
+        # ext first: the boundary cases are few and decide fast (n = the whole plan of the tier)
+        plan = [("ext", 1000, ctx.seed), ("tb", 24 if quick else 200, ctx.seed), ("pool", 1000 if quick else 8000, ctx.seed),
                 ("sess", 84 if quick else 330, ctx.seed), ("hist", 28 if quick else 160, ctx.seed)]
         if not quick:
             plan.append(("sess", 330, ctx.seed + 1000))
@@ -196,6 +218,15 @@ def run(ctx):
                    c.get("sess_pools_dealt_whole_words", 0) > 0 and c.get("sess_pools_dealt_partial_words", 0) == 0,
                    str({k: v for k, v in c.items() if "pools_dealt" in k}))
         ctx.oblige("a Get that had to wait for arriving batches ran (pool ops)", c.get("pool_pool_get_blocked", 0) > 0, str(c))
+        ctx.oblige("extreme circuits: every class (%s) ran as real sessions that completed with correct outputs; AND depth "
+                   ">= 2^8 and >= 2^16 ran as sessions (depth 65537 included) and, levels only, beyond 2^17; an AND batch of >= "
+                   "2^16 gates ran; the level oracle judged every circuit of every mode" % ", ".join(EXT_CLASSES),
+                   all(c.get("ext_sessions_ok_" + k, 0) > 0 for k in EXT_CLASSES) and
+                   c.get("ext_deep_size_65537", 0) >= 2 and c.get("ext_sessions_ok_deep", 0) >= 5 and
+                   c.get("ext_deep_and_depth_ge_2^16", 0) >= 4 and c.get("ext_and_batch_ge_2^16", 0) > 0 and
+                   c.get("ext_lvl_ops", 0) >= 20 and c.get("sess_level_oracle_circuits", 0) > 0 and
+                   c.get("hist_level_oracle_circuits", 0) > 0,
+                   str({k: v for k, v in c.items() if k.startswith("ext_") and "size" not in k}))
         hc = {k: v for k, v in c.items() if k.startswith("hist_")}
         ctx.oblige("histories on one Network: 2, 3, 4 and 5 parties; 2..5 calls; every relation between consecutive circuits "
                    "(%s) ran; consecutive DIFFERENT circuits of the same AND depth, a smaller and a larger circuit after "
@@ -210,7 +241,7 @@ def run(ctx):
         if ctx.widen:
             # widened search for a concrete failing input
             for s in range(ctx.seed + 7000, ctx.seed + 7003):
-                for mode, n in (("tb", 60), ("sess", 60), ("hist", 40)):
+                for mode, n in (("ext", 1000), ("tb", 60), ("sess", 60), ("hist", 40)):
                     ops, out, meta = ctx.run_hx(mode, n, seed=s, tag="-widen", timeout=1700)
                     ctx.absorb_meta(meta, prefix="widen_")
                 if ctx.fails:
@@ -225,7 +256,14 @@ def run(ctx):
         "circuit of a call related to the previous one as: " + ", ".join(HIST_RELATIONS) + " (synthetic circuits of a given "
         "shape = input widths, per-level AND widths; some with wires no gate assigns, which keep the bit of an earlier call); "
         "every call's outputs, wire shares and the pool position after the whole history are judged and replayed on the "
-        "model's fold over the Network state. distinct = distinct op lines")
+        "model's fold over the Network state; ext: extreme circuits, one class per internal dimension of the implementation "
+        "(deep = dependent AND chain with XOR/XNOR/INV mixed in and side gates, wide-and = one AND batch, wide-rest = one "
+        "level of non-AND gates, many-out = output bits, wide-in = one party's input width), sizes 255/256/257, "
+        "65535/65536/65537 and beyond (quick: depth 65537 and one of 65535/65536 as sessions, all of them and 131073, 262145 "
+        "levels-only; thorough: every size as a session, depth 131073 as a session, 2^20+1 levels-only), inputs of the deep "
+        "sessions sensitised (chosen first; operands picked by value so that the chain wire is 1 at almost every step), "
+        "the level oracle (gate levels of the real AssignLevels are a topological schedule of Network.run) on every "
+        "circuit of ext, sess and hist. distinct = distinct op lines")
     ctx.assumptions += [
         "the bit-COT correlation r = s xor Delta0*b is a hypothesis of C10_triples_valid (property C06 proves it for the "
         "IKNP model when n % 64 = 0; tripleBatch sizes are 4096 and 8192 - checked as a fact; the tb harness re-checks it "
@@ -237,6 +275,11 @@ def run(ctx):
         "party finished a phase for 60 s (or it ran 10 min); it is reported as c10-timeout only after a re-run ALONE "
         "(no other session in the harness) shows no progress for 120 s; nothing is launched after a confirmed hang",
         "the leader's listener exists before a peer dials it (a peer that finds no leader returns an error by design)",
+        "no-overflow side condition: the level theorems count in Nat; AssignLevels counts in circuit.Level = uint32. "
+        "C10_levels_u32 / C10_levels_counter_exact: for AND depth < 2^32 the 32-bit loop IS the Nat loop; "
+        "C10_levels_mod_not_topological: for every counter width k the schedule is not topological on the AND chain of "
+        "depth 2^k + 1. The harness measures the real counter up to AND depth 262145 (levels) / 65537 (sessions; thorough "
+        "131073): the real levels equal the Nat model's there",
         "wire store totalised: theorems carry SSA (single assignment, topological, indices < numWires), which the "
         "compiler output satisfies and the harness circuits are checked for by the reference evaluator",
     ]
@@ -254,6 +297,9 @@ def run(ctx):
         "snapshots the model reproduces every party's complete wire-share vector, consumed word count and outputs, (d) "
         "histories of 2..5 Run calls on one Network: the model's runHist reproduces every party's complete wire store "
         "(bits left by earlier calls included) and outputs after every call and the words consumed by the whole history. "
-        "Oracle on the real code: results = Circuit.Compute at every party, xor of shares = reference value on every wire, "
+        "(e) extreme circuits across 2^8 / 2^16 in AND depth, batch size, level width, outputs, input width: real gate "
+        "levels = model levels, level oracle = topoCheck, every party's outputs = compute. "
+        "Oracle on the real code: gate levels after AssignLevels(TargetGMW) are a topological schedule of Network.run "
+        "(every circuit run), results = Circuit.Compute at every party, xor of shares = reference value on every wire, "
         "triple relation on pool snapshots / Pool.Get output / tripleBatch output, lockstep consumption, completion under a "
         "deadline, Close returns nil.")
